@@ -197,6 +197,13 @@ let handle (x : sx) : ostring =
       (match run_deval f (Obj.magic w) with
        | None -> "DEVAL NONE"
        | Some out -> "DEVAL " ^ OS.concat " " (List.map (fun (t, v) -> string_of_int (int_of_z t) ^ ":" ^ string_of_extz (Obj.magic v)) (Obj.magic out)))
+  | L [A "devalpk"; pk; f; L w] ->
+      let pk = pk_of_sx pk and f = formula_of_sx f in
+      let sig_of = function L smp -> List.map (function L [t; v] -> (z_of_int (int_of_string (atom t)), (Obj.magic (extz_of_string (atom v)) : v)) | _ -> failwith "sample") smp | _ -> failwith "sig" in
+      let w = List.map sig_of w in
+      (match run_deval_pk pk f (Obj.magic w) with
+       | None -> "DEVAL NONE"
+       | Some out -> "DEVAL " ^ OS.concat " " (List.map (fun (t, v) -> string_of_int (int_of_z t) ^ ":" ^ string_of_extz (Obj.magic v)) (Obj.magic out)))
   | L [A "isect"; op; L a; L b] ->
       let smp = function L [t; v] -> (z_of_int (int_of_string (atom t)), (Obj.magic (extz_of_string (atom v)) : v)) | _ -> failwith "sample" in
       (match run_isect (nat_of_sx op) (Obj.magic (List.map smp a)) (Obj.magic (List.map smp b)) with
